@@ -129,7 +129,15 @@ func (c UnregisteredCaveat) MarshalMsgpack() ([]byte, error) {
 	return c.RawMsgpack, nil
 }
 
-func (c *UnregisteredCaveat) UnmarshalMsgpack(data []byte) error {
+func (c *UnregisteredCaveat) UnmarshalMsgpack(data []byte) (err error) {
+	// decoding into an untyped map panics ("hash of unhashable type") when a
+	// map key is itself an array, a map or a byte string
+	defer func() {
+		if r := recover(); r != nil {
+			err = fmt.Errorf("unregistered caveat: cannot decode body: %v", r)
+		}
+	}()
+
 	dec := msgpack.GetDecoder()
 	defer msgpack.PutDecoder(dec)
 
